@@ -9,48 +9,60 @@
 Require Import V.Lib V.C08_Model V.C08_Proofs.
 Open Scope N_scope.
 
-(* ---- 1. a failed attempt never takes anything away (full, every mode, every state) ----
-   The instance list and the mutex are exactly as before; every registered hook is still registered
-   (the registry only gained hooks born in this attempt); every cached htpasswd file and every
-   roller is as before; every listening socket is still open with at least as many descriptors. *)
+(* ---- 1. a failed attempt never takes anything away (full, every mode, every well-formed state) ----
+   The instance list, the mutex and the event-hook registry are exactly as before; every roller is as
+   before; the table of listening sockets with their descriptor counts is EXACTLY as
+   before: what a failing start opened (new listeners, duplicated descriptors of inherited ones) it
+   closed again (fix of F-C08-2/2b/2c).  [wf] holds in every reachable state, see 9. *)
 Theorem C08_failed_attempt_loses_nothing :
   forall m step e c g r g',
-  attempt m step e c g = (r, g') -> r <> ROk ->
+  wf g -> attempt m step e c g = (r, g') -> r <> ROk ->
   g_insts g' = g_insts g /\ g_htlock g' = g_htlock g /\
-  (exists k, g_hooks g' = g_hooks g ++ repeat step k) /\
-  (forall f x, assoc f (g_htcache g) = Some x -> assoc f (g_htcache g') = Some x) /\
+  g_hooks g' = g_hooks g /\
   (forall f x, assoc f (g_rollers g) = Some x -> assoc f (g_rollers g') = Some x) /\
-  socks_le (g_socks g) (g_socks g').
-Proof.
-  intros m step e c g r g' H NR.
-  destruct (failed_attempt_grow m step e c g r g' H NR) as [A1 A2 A3 A4 A5 A6]. auto 10.
-Qed.
+  g_socks g' = g_socks g.
+Proof. exact failed_attempt_loses_nothing. Qed.
 Print Assumptions C08_failed_attempt_loses_nothing.
+
+Example C08_failed_attempt_loses_nothing_nonvacuous :
+  (exists g', attempt Load 1 [] (mkcfg 1 [] [AEph 1; ABusy]) g0 = (RErr, g') /\ g_socks g' = g_socks g0) /\
+  (exists g1 g', attempt Load 1 [] (mkcfg 1 [] [AEph 1]) g0 = (ROk, g1) /\
+                 attempt Reload 2 [] (mkcfg 2 [] [AEph 1; AEph 2; ABusy]) g1 = (RErr, g') /\
+                 g_socks g' = g_socks g1 /\ sum_fds (g_socks g1) = 1%nat).
+Proof. exact listeners_closed_witness. Qed.
 
 (* ---- 2. a failed attempt leaves the running sites untouched (full) ----
    Same instances (hence same configuration marker and same basic-auth matcher for every site), every
    server's socket still open, every site still writes through the roller it had. *)
 Theorem C08_failed_attempt_sites_untouched :
   forall m step e c g r g',
-  attempt m step e c g = (r, g') -> r <> ROk ->
+  wf g -> attempt m step e c g = (r, g') -> r <> ROk ->
   g_insts g' = g_insts g /\
   (forall i, In i (g_insts g) -> alive g i -> alive g' i) /\
   (forall i x, In i (g_insts g) -> roller_of g i = Some x -> roller_of g' i = Some x).
 Proof. exact failed_attempt_sites_untouched. Qed.
 Print Assumptions C08_failed_attempt_sites_untouched.
 
-(* ---- 3. the SIGUSR1 path restores the hook registry exactly (full for that path) ---- *)
-Theorem C08_failed_sigusr1_restores_hooks :
-  forall step e c g r g',
-  attempt Sigusr1 step e c g = (r, g') -> r <> ROk -> g_hooks g' = g_hooks g.
-Proof. exact failed_sigusr1_hooks. Qed.
-Print Assumptions C08_failed_sigusr1_restores_hooks.
+(* ---- 3. EVERY failed attempt leaves the event-hook registry exactly as it was (full: every mode, every
+        state, every configuration; fix of F-C08-1/1b/1c/1d — formerly true of the SIGUSR1 path only) ---- *)
+Theorem C08_failed_attempt_restores_hooks :
+  forall m step e c g r g',
+  attempt m step e c g = (r, g') -> r <> ROk -> g_hooks g' = g_hooks g.
+Proof. exact failed_attempt_hooks. Qed.
+Print Assumptions C08_failed_attempt_restores_hooks.
 
-Example C08_failed_sigusr1_restores_hooks_nonvacuous :
-  exists g1 g2, attempt Load 1 [] (mkcfg 1 [EOn 1] [AEph 1]) g0 = (ROk, g1) /\
-                attempt Sigusr1 2 [] (mkcfg 2 [EOn 2; EBad] [AEph 1]) g1 = (RErr, g2) /\
-                g_hooks g2 = [1] /\ g_hooks g1 = [1].
-Proof. eexists. eexists. vm_compute. repeat split; reflexivity. Qed.
+Example C08_failed_attempt_restores_hooks_nonvacuous :
+  (exists g', attempt Load 1 [] (mkcfg 1 [EOn 1; EBad] [AEph 1]) g0 = (RErr, g') /\ g_hooks g' = []) /\
+  (exists g', attempt Validate 1 [] (mkcfg 1 [EOn 1; EAuth 2 1] [AEph 1]) g0 = (RErr, g') /\ g_hooks g' = []) /\
+  (exists g', attempt Execute 1 [] (mkcfg 1 [EOn 2; EBad] [AEph 1]) g0 = (RErr, g') /\ g_hooks g' = []) /\
+  (exists g', attempt Load 1 [] (mkcfg 1 [EOn 1] [AEph 1; ABusy]) g0 = (RErr, g') /\ g_hooks g' = []) /\
+  (exists g1 g2, attempt Load 1 [] (mkcfg 1 [EOn 1] [AEph 1]) g0 = (ROk, g1) /\
+                 attempt Reload 2 [] (mkcfg 2 [EOn 2; EBad] [AEph 1]) g1 = (RErr, g2) /\
+                 g_hooks g2 = [1] /\ g_hooks g1 = [1]) /\
+  (exists g1 g2, attempt Load 1 [] (mkcfg 1 [EOn 1] [AEph 1]) g0 = (ROk, g1) /\
+                 attempt Sigusr1 2 [] (mkcfg 2 [EOn 2; EBad] [AEph 1]) g1 = (RErr, g2) /\
+                 g_hooks g2 = [1] /\ g_hooks g1 = [1]).
+Proof. exact hooks_restored_witness. Qed.
 
 (* ---- 4. bounded time: over ALL histories no attempt ever blocks, and the htpasswd mutex is free
         after every history (full; this is the clause the fix ee9fbaa made true) ---- *)
@@ -73,30 +85,57 @@ Theorem C08_htpasswd_lock_before_fix_refuted :
 Proof. exact prefix_lock_refuted. Qed.
 Print Assumptions C08_htpasswd_lock_before_fix_refuted.
 
-(* ---- 5. the frame theorem ----
-   Full statement "after a failed attempt the state equals the state before" is FALSE of the code as it
-   is: witnesses for the hook registry (load, validate, API-driven reload), the listening sockets and
-   their descriptors, the roller map and the htpasswd cache. *)
+(* ---- 5. the htpasswd cache is transparent (full; fix of F-C08-4/4b/4c) ----
+   In every reachable state ([wf]: what is cached was parsed from a file that was there) the answer of
+   GetHtpasswdMatcher — error or the password the user's matcher accepts — is the answer the file on disk
+   gives NOW; and whatever an attempt does from a state, it does from the state with any other cache:
+   same outcome, same resulting state up to what the cache holds. *)
+Theorem C08_htpasswd_matcher_answers_from_the_file :
+  forall e g f u r g' o,
+  g_htlock g = false -> cache_ok g -> get_matcher e g f u = (r, g', o) ->
+  (r, o) = lookup_now e f u /\ same_but_cache g g' /\ cache_ok g'.
+Proof. exact matcher_answers_from_the_file. Qed.
+Print Assumptions C08_htpasswd_matcher_answers_from_the_file.
+
+Theorem C08_attempt_ignores_htpasswd_cache :
+  forall m step e c g1 g2 r g1',
+  cache_ok g1 -> cache_ok g2 -> same_but_cache g1 g2 -> attempt m step e c g1 = (r, g1') ->
+  exists g2', attempt m step e c g2 = (r, g2') /\ same_but_cache g1' g2' /\ cache_ok g2'.
+Proof. exact attempt_ignores_cache. Qed.
+Print Assumptions C08_attempt_ignores_htpasswd_cache.
+
+Example C08_htpasswd_cache_nonvacuous :
+  (exists rs e' g', run 1 [OAttempt Load (mkcfg 1 [EAuth 2 1] [AEph 1]); OWrite 2 (users [(1, 2); (2, 1)])]
+                      ([(2, users [(2, 1)])], g0) = (rs, (e', g')) /\ rs = [RErr; ROk] /\
+                    fst (do_load 9 e' (mkcfg 2 [EAuth 2 1] [AEph 1]) g') = ROk) /\
+  (exists rs e' g' gb, run 1 [OAttempt Load (mkcfg 1 [EAuth 1 1; EBad] [AEph 1]); OWrite 1 (users [(1, 2)])]
+                      ([(1, users [(1, 1)])], g0) = (rs, (e', g')) /\ rs = [RErr; ROk] /\
+                    do_load 9 e' (mkcfg 2 [EAuth 1 1] [AEph 1]) g' = (ROk, gb) /\
+                    map auth_view (g_insts gb) = [[4; 4; 2]]) /\
+  (exists rs e' g', run 1 [OAttempt Validate (mkcfg 1 [EAuth 1 1] [AEph 1]); OWrite 1 ht_missing]
+                      ([(1, users [(1, 1)])], g0) = (rs, (e', g')) /\ rs = [ROk; ROk] /\
+                    fst (do_load 9 e' (mkcfg 2 [EAuth 1 1] [AEph 1]) g') = RErr).
+Proof. exact htpasswd_cache_witness. Qed.
+
+(* ---- 6. the frame theorem ----
+   Full statement "after a failed attempt the state equals the state before, up to the transparent
+   htpasswd cache" is FALSE of the code as it is for one registry only: the roller map (F-C08-3, open).
+   The listening sockets with their descriptors, the event-hook registry and the htpasswd cache are no
+   longer among the witnesses: see 1, 3 and 5. *)
 Theorem C08_failed_attempt_frame_refuted :
-  (exists c g', attempt Load 1 [] c g0 = (RErr, g') /\ g_hooks g' <> g_hooks g0) /\
-  (exists c g', attempt Validate 1 [] c g0 = (RErr, g') /\ g_hooks g' <> g_hooks g0) /\
-  (exists c0 c g1 g', attempt Load 1 [] c0 g0 = (ROk, g1) /\ attempt Reload 2 [] c g1 = (RErr, g') /\
-                      g_hooks g' <> g_hooks g1) /\
-  (exists c g', attempt Load 1 [] c g0 = (RErr, g') /\ g_socks g' <> g_socks g0) /\
-  (exists c0 c g1 g', attempt Load 1 [] c0 g0 = (ROk, g1) /\ attempt Reload 2 [] c g1 = (RErr, g') /\
-                      sum_fds (g_socks g') <> sum_fds (g_socks g1)) /\
-  (exists c g', attempt Load 1 [] c g0 = (RErr, g') /\ g_rollers g' <> g_rollers g0) /\
-  (exists e c g', attempt Load 1 e c g0 = (RErr, g') /\ g_htcache g' <> g_htcache g0).
+  exists c g', attempt Load 1 [] c g0 = (RErr, g') /\ g_rollers g' <> g_rollers g0.
 Proof. exact frame_refuted. Qed.
 Print Assumptions C08_failed_attempt_frame_refuted.
 
-(* Strongest true statement: the ENTIRE state is unchanged by a failed attempt that does not REACH one of
-   the four leaks.  [reached c] is the part of the configuration an attempt can execute (nothing of a
-   configuration that does not parse; of one with a bad directive only the directives before it, minus
-   the startup callbacks they merely schedule); in it: no `on` hooks (unless the attempt comes through
-   SIGUSR1), no htpasswd line, and — unless the attempt ends after the directives (validate, execute) —
-   no log roller and no listener opened before the failing one.  [wf] (nobody serves the foreign
-   address) holds in every reachable state, see 8. *)
+(* Strongest true statement: the ENTIRE state except what the (transparent) cache holds is unchanged by a
+   failed attempt that does not REACH the remaining leak.  [reached c] is the part of the configuration an
+   attempt can execute (nothing of a configuration that does not parse; of one with a bad directive only the
+   directives before it, minus the startup callbacks they merely schedule); in it — unless the attempt ends
+   after the directives (validate, execute) — no log roller.  Listeners, `on` hooks and htpasswd lines are no
+   side condition: whatever the failing attempt opened it closed again, whatever it registered it took out
+   again, whatever it cached is consulted only for the version of the file that is on disk.
+   [wf] (nobody serves the foreign address, every socket of the table has a descriptor, what is cached was
+   parsed) holds in every reachable state, see 9. *)
 Theorem C08_attempt_depends_only_on_what_it_reaches :
   forall m step e c g, attempt m step e c g = attempt m step e (reached c) g.
 Proof. exact attempt_reached. Qed.
@@ -104,7 +143,7 @@ Print Assumptions C08_attempt_depends_only_on_what_it_reaches.
 
 Theorem C08_failed_attempt_frame_partial :
   forall m step e c g r g',
-  wf g -> harmless m c = true -> attempt m step e c g = (r, g') -> r <> ROk -> g' = g.
+  wf g -> harmless m c = true -> attempt m step e c g = (r, g') -> r <> ROk -> same_but_cache g g'.
 Proof. exact failed_harmless_identity. Qed.
 Print Assumptions C08_failed_attempt_frame_partial.
 
@@ -112,92 +151,67 @@ Example C08_failed_attempt_frame_partial_nonvacuous :
   harmless Load (mkcfg 1 [EBad] [AEph 1]) = true /\
   harmless Load {| c_id := 1; c_parse := PSyntax; c_effs := [EOn 2; ELog 1 1 true; EAuth 1 1]; c_addrs := [AEph 1; ABusy] |} = true /\
   harmless Reload (mkcfg 1 [ELog 1 1 true; EBad; EOn 2; EAuth 1 1] [AEph 1; ABusy]) = true /\
-  harmless Load (mkcfg 1 [EOn 1; EBad] [AEph 1]) = false /\
+  harmless Load (mkcfg 1 [EOn 1; EBad] [AEph 1]) = true /\
+  harmless Load (mkcfg 1 [EAuth 1 1; EBad] [AEph 1]) = true /\
+  harmless Load (mkcfg 1 [EOn 2; EAuth 1 1] [AEph 1; AEph 2; ABusy]) = true /\
+  harmless Reload (mkcfg 1 [] [AEph 1; ABusy]) = true /\
+  harmless Load (mkcfg 1 [ELog 1 1 true] [ABusy]) = false /\
   harmless Sigusr1 (mkcfg 1 [EOn 2; EBad] [ABusy; AEph 1]) = true /\
   harmless Validate {| c_id := 1; c_parse := PSyntax; c_effs := [ELog 1 1 false]; c_addrs := [AEph 1; ABusy] |} = true /\
   fst (attempt Load 1 [] (mkcfg 1 [EBad] [AEph 1]) g0) = RErr.
 Proof. vm_compute. repeat split; reflexivity. Qed.
 
-(* ---- 6. a valid configuration after any sequence of failures ----
+(* ---- 7. a valid configuration after any sequence of failures ----
    Over ALL histories of attempts that failed and environment changes, from ANY reachable state: if the
-   failed attempts are harmless in the sense of 5, the global state is exactly the state before the
-   history, so every later attempt — in particular loading a valid configuration — has the outcome and
-   the effect it has without the failures (from [g0]: in a fresh process). *)
+   failed attempts are harmless in the sense of 6, the global state is the state before the history up to
+   what the cache holds, so every later attempt — in particular loading a valid configuration — has the
+   outcome and the effect it has without the failures (from [g0]: in a fresh process). *)
 Theorem C08_valid_after_failures_partial :
   forall h step0 e g rs e' g',
   wf g -> forallb harmless_op h = true ->
   run step0 h (e, g) = (rs, (e', g')) -> attempts_failed h rs ->
-  g' = g /\ e' = writes h e /\
-  forall m step v, attempt m step e' v g' = attempt m step (writes h e) v g.
-Proof.
-  intros h step0 e g rs e' g' W HH R AF.
-  destruct (run_harmless_failures_identity h step0 e g rs e' g' W HH R AF) as [-> ->].
-  repeat split; reflexivity.
-Qed.
+  same_but_cache g g' /\ e' = writes h e /\
+  forall m step v r ga, attempt m step (writes h e) v g = (r, ga) ->
+  exists gb, attempt m step e' v g' = (r, gb) /\ same_but_cache ga gb.
+Proof. exact valid_after_harmless_failures. Qed.
 Print Assumptions C08_valid_after_failures_partial.
 
 Example C08_valid_after_failures_partial_nonvacuous :
-  let h := [OAttempt Load (mkcfg 1 [EBad] [AEph 1]);
+  let h := [OAttempt Load (mkcfg 1 [EOn 1; EAuth 1 1; EBad] [AEph 1]);
             OAttempt Validate {| c_id := 2; c_parse := PImport; c_effs := []; c_addrs := [AEph 1] |};
             OWrite 1 (users [(1, 1)]);
-            OAttempt Load (mkcfg 3 [] [ABusy; AEph 2])] in
+            OAttempt Load (mkcfg 3 [EOn 2; EAuth 1 2] [AEph 1; ABusy; AEph 2])] in
   forallb harmless_op h = true /\ attempts_failed h (fst (run 1 h ([], g0))).
 Proof. vm_compute. repeat split; discriminate. Qed.
 
-(* Without the side condition the statement is FALSE of the code as it is: after one failed load and a
-   repair of the htpasswd file, a configuration that is valid and loads in a fresh process is rejected. *)
-Theorem C08_valid_after_failures_refuted :
-  exists h e v rs e' g',
-    run 1 h (e, g0) = (rs, (e', g')) /\ attempts_failed h rs /\
-    cfg_valid e' v = true /\
-    fst (do_load 9 e' v g0) = ROk /\ fst (do_load 9 e' v g') = RErr.
-Proof. exact valid_after_failures_refuted. Qed.
-Print Assumptions C08_valid_after_failures_refuted.
-
-(* ... or it loads and behaves differently from a fresh process: it rotates its log with the settings
-   of the rejected configuration / authenticates against the old contents of the htpasswd file. *)
+(* Without the side condition the statement is FALSE of the code as it is: a valid configuration loads after
+   a failed attempt but behaves differently from a fresh process: it rotates its log with the settings of
+   the rejected configuration (F-C08-3, open). *)
 Theorem C08_valid_after_failures_behaviour_refuted :
-  (exists h v rs e' g' ga gb,
+  exists h v rs e' g' ga gb,
      run 1 h ([], g0) = (rs, (e', g')) /\ attempts_failed h rs /\ cfg_valid e' v = true /\
-     do_load 9 e' v g0 = (ROk, ga) /\ do_load 9 e' v g' = (ROk, gb) /\ roll_view ga <> roll_view gb) /\
-  (exists h e v rs e' g' ga gb,
-     run 1 h (e, g0) = (rs, (e', g')) /\ attempts_failed h rs /\ cfg_valid e' v = true /\
-     do_load 9 e' v g0 = (ROk, ga) /\ do_load 9 e' v g' = (ROk, gb) /\
-     map auth_view (g_insts ga) <> map auth_view (g_insts gb)).
+     do_load 9 e' v g0 = (ROk, ga) /\ do_load 9 e' v g' = (ROk, gb) /\ roll_view ga <> roll_view gb.
 Proof. exact valid_after_failures_behaviour_refuted. Qed.
 Print Assumptions C08_valid_after_failures_behaviour_refuted.
 
-(* ---- 7. what holds over ALL histories without any side condition on the failures ----
+(* ---- 8. what holds over ALL histories without any side condition (full) ----
    After ANY history whatsoever (failed and successful attempts of every kind, file rewrites) a valid
    configuration loads — it succeeds, in bounded time (4), its instance is appended to the list, serves
    its own marker and authenticates against the CURRENT contents of its htpasswd file ([expected_auth]
-   is computed from the configuration and the environment alone) —
-   provided only that the htpasswd cache is not stale for the files it uses (trivially true for a
-   configuration without htpasswd lines: the stale cache is the one way a failure can reach it). *)
+   is computed from the configuration and the environment alone).  (Formerly this needed the hypothesis
+   that the htpasswd cache is not stale for the files the configuration uses, and was refuted without it.) *)
 Theorem C08_valid_config_loads_after_any_history :
   forall h e rs e' g' step v,
   run 1 h (e, g0) = (rs, (e', g')) ->
-  cfg_valid e' v = true -> cache_fresh e' g' (c_effs v) ->
+  cfg_valid e' v = true ->
   exists g'' ni, do_load step e' v g' = (ROk, g'') /\ g_insts g'' = g_insts g' ++ [ni] /\ i_cfg ni = c_id v /\
                  i_auth ni = expected_auth e' (c_effs v) None.
 Proof. exact valid_load_after_any_history. Qed.
 Print Assumptions C08_valid_config_loads_after_any_history.
 
-Theorem C08_valid_config_without_htpasswd_always_loads :
-  forall h e rs e' g' step v,
-  run 1 h (e, g0) = (rs, (e', g')) ->
-  cfg_valid e' v = true -> no_auth (c_effs v) = true ->
-  exists g'' ni, do_load step e' v g' = (ROk, g'') /\ g_insts g'' = g_insts g' ++ [ni] /\ i_cfg ni = c_id v /\
-                 i_auth ni = expected_auth e' (c_effs v) None.
-Proof.
-  intros h e rs e' g' step v R V NA.
-  eapply valid_load_after_any_history; eauto. apply no_auth_cache_fresh. exact NA.
-Qed.
-Print Assumptions C08_valid_config_without_htpasswd_always_loads.
-
 Theorem C08_valid_reload_succeeds :
   forall step e c g old rest,
-  g_htlock g = false -> g_insts g = old :: rest -> cfg_valid e c = true -> cache_fresh e g (c_effs c) ->
+  g_htlock g = false -> cache_ok g -> g_insts g = old :: rest -> cfg_valid e c = true ->
   exists g' ni, do_reload step e c g = (ROk, g') /\ g_insts g' = rest ++ [ni] /\ i_cfg ni = c_id c /\
                 i_auth ni = expected_auth e c.(c_effs) None.
 Proof. exact valid_reload_succeeds. Qed.
@@ -207,7 +221,7 @@ Example C08_valid_config_loads_nonvacuous :
   cfg_valid [(1, users [(1, 1)])] (mkcfg 7 [EOn 1; ELog 1 50 true; EAuth 1 1] [AEph 1; AEph 2]) = true.
 Proof. vm_compute. reflexivity. Qed.
 
-(* ---- 8. the well-formedness used above is an invariant of every history ---- *)
+(* ---- 9. the well-formedness used above is an invariant of every history ---- *)
 Theorem C08_reachable_states_wellformed :
   forall h step e rs e' g', run step h (e, g0) = (rs, (e', g')) -> wf g'.
 Proof. intros h step e rs e' g' R. eapply run_wf; [exact wf_g0|exact R]. Qed.
